@@ -174,9 +174,10 @@ def _scenarios(ctx, res, M, core, root):
         pfs = _postfixes(rng, k)
         minerals = []
         for j in range(k):
+            long_history = (s % 20 == 7 and j == 0)        # 255, 256, 257, 300 ... snapshots (counts that do not fit in a byte)
             m, kind = _make_mineral(M, core, rng, combos[ci % len(combos)],
-                                    n=int(rng.integers(1, 9)) if small else None,
-                                    snaps=int(rng.integers(1, 5)) if small else None)
+                                    n=(int(rng.integers(1, 4)) if long_history else int(rng.integers(1, 9))) if (small or long_history) else None,
+                                    snaps=int(rng.choice([255, 256, 257, 300, 700])) if long_history else (int(rng.integers(1, 5)) if small else None))
             ci += 1
             minerals.append(m)
             res.count("contents:" + kind)
@@ -329,10 +330,18 @@ def _corrupt_and_names(ctx, res, M, core, root):
         elif kind == "later_snapshot_other_n":
             m.fractions[-1] = np.ones(n + 3)
             m.orientations[-1] = np.ones((n + 3, 3, 3))
+        elif kind == "later_snapshot_one_grain":      # sizes that numpy would silently broadcast over the grains
+            m.fractions[-1] = np.ones(1)
+            m.orientations[-1] = np.ones((1, 3, 3))
+        elif kind == "later_fraction_one_grain":
+            m.fractions[-1] = np.ones(1)
+        elif kind == "later_orientation_one_grain":
+            m.orientations[-1] = np.ones((1, 3, 3))
         return m
 
     kinds = ["extra_fraction_snapshot", "extra_orientation_snapshot", "n_grains_differs", "first_fraction_size",
-             "first_orientation_size", "ragged_fraction", "ragged_orientation", "later_snapshot_other_n"]
+             "first_orientation_size", "ragged_fraction", "ragged_orientation", "later_snapshot_other_n",
+             "later_snapshot_one_grain", "later_fraction_one_grain", "later_orientation_one_grain"]
     for r in range(n_rounds):
         for kind in kinds:
             m = corrupt(kind)
